@@ -122,7 +122,11 @@ Inductive spec :=
 (* C08: the last three bytes written are the value of label [name] (a reference to scope.name) *)
 | SExport (name : str)
 (* the assembly must be rejected *)
-| SReject.
+| SReject
+(* C02: every listed label (name, value) is the address some LabelNode / BinaryNode of that name was given
+   in the label pass ([events]: name, address passed to pc_after) *)
+| SLabelValues (events : list (str * Z))
+| SAnd (a b : spec).
 
 Definition nth_z {A} (l : list A) (i : nat) : option A := nth_error l i.
 
@@ -144,8 +148,14 @@ Definition emit_addr (em : list (nat * Z * nat * Z)) (i : nat) : option Z :=
   | [] => None
   end.
 
-Definition spec_ok (s : spec) (impl : obs asmobs) : bool :=
+Fixpoint spec_ok (s : spec) (impl : obs asmobs) : bool :=
   match s with
+  | SAnd a b => spec_ok a impl && spec_ok b impl
+  | SLabelValues events =>
+      match impl with
+      | OOk (_, labels) => forallb (fun nv => existsb (label_eqb nv) events) labels
+      | _ => true
+      end
   | SNone => true
   | SData high org off items end_label tail =>
       match impl with
